@@ -129,7 +129,21 @@ def field_wire(f):
         return bytes(f[1])
     if k == "ip6":
         return b"".join(g.to_bytes(2, "big") for g in f[1])
+    if k == "proto":
+        return bytes([f[1]])
+    if k == "port":
+        return b""
     return bytes([len(f[1])]) + f[1]
+
+
+def wks_bitmap(ports):
+    """One bit per port, bit order as in src/rr/rdata/std13.rs (port 8k+b is bit 2^b of octet k)."""
+    if not ports:
+        return b""
+    bm = bytearray(max(ports) // 8 + 1)
+    for p in ports:
+        bm[p // 8] |= 1 << (p % 8)
+    return bytes(bm)
 
 
 def render_field(fc, f):
@@ -144,11 +158,22 @@ def render_field(fc, f):
         return b".".join(b"%d" % x for x in f[1])
     if k == "ip6":
         return render_ip6(fc[1], f[1])
+    if k == "proto":
+        pc = fc[1]
+        if pc[0] == "tcp":
+            return apply_case(pc[1], b"TCP")
+        if pc[0] == "udp":
+            return apply_case(pc[1], b"UDP")
+        return render_uint(pc[1], f[1])
+    if k == "port":
+        return render_uint(fc[1], f[1])
     return render_string(fc[1], f[1])
 
 
 def rdata_wire(d):
-    return b"".join(field_wire(f) for f in d[1]) if d[0] == "fields" else d[1]
+    if d[0] != "fields":
+        return d[1]
+    return b"".join(field_wire(f) for f in d[1]) + wks_bitmap([f[1] for f in d[1] if f[0] == "port"])
 
 
 def render_rdata(dc, d):
@@ -296,6 +321,15 @@ def ser_lines(lines):
             nat(2); lst(fc[1][0], nat); lst(fc[1][1], bl)
         elif k == "str":
             nat(3); sch(fc[1])
+        elif k == "proto":
+            nat(5)
+            pc = fc[1]
+            if pc[0] == "tcp":
+                nat(0); lst(pc[1], bl)
+            elif pc[0] == "udp":
+                nat(1); lst(pc[1], bl)
+            else:
+                nat(2); ich(pc[1])
         else:
             nat(4)
 
@@ -313,6 +347,10 @@ def ser_lines(lines):
             nat(4); [nat(x) for x in f[1]]
         elif k == "ip6":
             nat(5); lst(f[1], nat)
+        elif k == "proto":
+            nat(7); nat(f[1])
+        elif k == "port":
+            nat(8); nat(f[1])
         else:
             nat(6); by(f[1])
 
@@ -537,7 +575,12 @@ def gen_rdata_values(rng, hard, origin):
             return ("name", rel + origin)
         return ("name", gen_labels(rng, hard))
     kind = rng.choice(["A", "A", "NS", "CNAME", "SOA", "MX", "TXT", "TXT", "AAAA", "SRV", "PTR", "HINFO", "MINFO", "CHA", "MB", "MG",
-                       "MR", "MD", "MF", "UNK", "UNK"])
+                       "MR", "MD", "MF", "UNK", "UNK", "WKS"])
+    if kind == "WKS":
+        ports = [rng.choice([0, 7, 8, 25, 53, 80, 255, 256, 1023, rng.randint(0, 2000)]) for _ in range(rng.choice([0, 1, 2, 3, 6]))]
+        if rng.random() < 0.03:
+            ports.append(65535)
+        return 11, 1, [("ip4", [rng.randrange(256) for _ in range(4)]), ("proto", rng.choice([6, 17, 0, 1, 255, rng.randrange(256)]))] + [("port", q) for q in ports]
     if kind == "A":
         return 1, 1, [("ip4", [rng.randrange(256) for _ in range(4)])]
     if kind in ("NS", "CNAME", "PTR", "MB", "MG", "MR", "MD", "MF"):
@@ -574,6 +617,14 @@ def gen_field_choice(rng, f, origin, first):
         return ("int", (False, rng.choice([0, 0, 0, 1, 2])))
     if k == "ip4":
         return ("plain",)
+    if k == "proto":
+        if f[1] == 6 and rng.random() < 0.7:
+            return ("proto", ("tcp", gen_lows(rng, 3)))
+        if f[1] == 17 and rng.random() < 0.7:
+            return ("proto", ("udp", gen_lows(rng, 3)))
+        return ("proto", ("num", gen_ich(rng)))
+    if k == "port":
+        return ("int", gen_ich(rng))
     if k == "ip6":
         drops = []
         for g in f[1]:
